@@ -167,6 +167,11 @@ def run(ck, prog, specs):
             continue
         fn = path[0]
         site = sites[0] if sites else ""
+        if not ok and getattr(g, "alt", None):
+            # an equivalent idiom the comparison-based evaluation does not see (e.g. an implicit bounds check)
+            ok2, d2 = g.alt(prog, _resolve_body(prog, g.fn))
+            if ok2:
+                ok, detail = True, d2
         if ok:
             ck.ok(g.rule, g.name, fn, site, detail)
         else:
